@@ -3,6 +3,7 @@
   (Not / Imply / XNor go through `negate`, i.e. through the repair of defect D1.)
 -/
 import Puan.Lemmas.Build
+import Puan.Model.Cic
 import Puan.Props.C05
 namespace Puan.C04
 open Puan P
@@ -339,5 +340,265 @@ example :
     let a : Ast := .imply (.xor [.str "a", .str "b"] none false) (.not (.all [.str "c", .any [.str "a", .str "c"] none] (some "N"))) none
     let σ : String → Int := fun i => if i = "a" then 1 else 0
     truth σ a = 1 := by decide
+
+/-! ### … and via the JSON and rule-dictionary constructors -/
+
+mutual
+/-- plog classes only (the JSON class map of `plog.from_json`) -/
+def PlogExpr : Ast → Prop
+  | .var .. => True
+  | .str .. => True
+  | .atLeast _ as _ _ => PlogExprL as
+  | .atMost _ as _ => PlogExprL as
+  | .all as _ => PlogExprL as
+  | .any as _ => PlogExprL as
+  | .xor as _ _ => PlogExprL as
+  | .xnor as _ => PlogExprL as
+  | .imply c d _ => PlogExpr c ∧ PlogExpr d
+  | .not a => PlogExpr a
+  | .ccAny .. => False
+  | .ccXor .. => False
+  | .stingy .. => False
+def PlogExprL : List Ast → Prop
+  | [] => True
+  | a :: as => PlogExpr a ∧ PlogExprL as
+end
+
+mutual
+/-- every `AtLeast` carries the sign the constructor would infer from its value (JSON written by hand has no sign) -/
+def DefaultSigns : Ast → Prop
+  | .var .. => True
+  | .str .. => True
+  | .atLeast v as _ sgn => (sgn = none ∨ sgn = some (sgnOf v none)) ∧ DefaultSignsL as
+  | .atMost _ as _ => DefaultSignsL as
+  | .all as _ => DefaultSignsL as
+  | .any as _ => DefaultSignsL as
+  | .xor as _ _ => DefaultSignsL as
+  | .xnor as _ => DefaultSignsL as
+  | .imply c d _ => DefaultSigns c ∧ DefaultSigns d
+  | .not a => DefaultSigns a
+  | .ccAny as _ _ => DefaultSignsL as
+  | .ccXor as _ _ => DefaultSignsL as
+  | .stingy as _ => DefaultSignsL as
+def DefaultSignsL : List Ast → Prop
+  | [] => True
+  | a :: as => DefaultSigns a ∧ DefaultSignsL as
+end
+
+mutual
+/-- `plog.from_json` dispatches the JSON of an expression to the same constructor calls (strings as boolean variables) -/
+theorem fromJson_userJson : ∀ a : Ast, PlogExpr a → PJ.toAst false a.userJson = some a.viaJson
+  | .var i b, _ => by simp [Ast.userJson, Ast.viaJson, PJ.toAst]
+  | .str i, _ => by simp [Ast.userJson, Ast.viaJson, PJ.toAst]
+  | .atLeast v as oid sgn, h => by
+      simp [Ast.userJson, Ast.viaJson, PJ.toAst, fromJson_userJsonL as (by simpa [PlogExpr] using h)]
+  | .atMost v as oid, h => by
+      simp [Ast.userJson, Ast.viaJson, PJ.toAst, fromJson_userJsonL as (by simpa [PlogExpr] using h)]
+  | .all as oid, h => by
+      simp [Ast.userJson, Ast.viaJson, PJ.toAst, fromJson_userJsonL as (by simpa [PlogExpr] using h)]
+  | .any as oid, h => by
+      simp [Ast.userJson, Ast.viaJson, PJ.toAst, fromJson_userJsonL as (by simpa [PlogExpr] using h)]
+  | .xor as oid e, h => by
+      cases e <;> simp [Ast.userJson, Ast.viaJson, PJ.toAst, fromJson_userJsonL as (by simpa [PlogExpr] using h)]
+  | .xnor as oid, h => by
+      simp [Ast.userJson, Ast.viaJson, PJ.toAst, fromJson_userJsonL as (by simpa [PlogExpr] using h)]
+  | .imply c d oid, h => by
+      have ⟨h1, h2⟩ : PlogExpr c ∧ PlogExpr d := by simpa [PlogExpr] using h
+      simp [Ast.userJson, Ast.viaJson, PJ.toAst, PJ.toAstOpt, fromJson_userJson c h1, fromJson_userJson d h2]
+  | .not a, h => by
+      simp [Ast.userJson, Ast.viaJson, PJ.toAst, PJ.toAstOpt, fromJson_userJson a (by simpa [PlogExpr] using h)]
+  | .ccAny .., h => by simp [PlogExpr] at h
+  | .ccXor .., h => by simp [PlogExpr] at h
+  | .stingy .., h => by simp [PlogExpr] at h
+theorem fromJson_userJsonL : ∀ as : List Ast, PlogExprL as → PJ.toAstL false (Ast.userJsonL as) = some (Ast.viaJsonL as)
+  | [], _ => by simp [Ast.userJsonL, Ast.viaJsonL, PJ.toAstL]
+  | a :: as, h => by
+      have ⟨h1, h2⟩ : PlogExpr a ∧ PlogExprL as := by simpa [PlogExprL] using h
+      simp [Ast.userJsonL, Ast.viaJsonL, PJ.toAstL, fromJson_userJson a h1, fromJson_userJsonL as h2]
+end
+
+theorem length_viaJsonL : ∀ as : List Ast, (Ast.viaJsonL as).length = as.length
+  | [] => rfl
+  | a :: as => by simp [Ast.viaJsonL, length_viaJsonL as]
+
+mutual
+theorem truth_viaJson (σ) : ∀ a : Ast, PlogExpr a → DefaultSigns a → truth σ a.viaJson = truth σ a
+  | .var i b, _, _ => by simp [Ast.viaJson, truth]
+  | .str i, _, _ => by simp [Ast.viaJson, truth]
+  | .atLeast v as oid sgn, h, hs => by
+      have ⟨s1, s2⟩ : (sgn = none ∨ sgn = some (sgnOf v none)) ∧ DefaultSignsL as := by simpa [DefaultSigns] using hs
+      have : sgnOf v sgn = sgnOf v none := by rcases s1 with rfl | rfl <;> simp [sgnOf]
+      simp [Ast.viaJson, truth, truthSum_viaJson σ as (by simpa [PlogExpr] using h) s2, this]
+  | .atMost v as oid, h, hs => by
+      simp [Ast.viaJson, truth, truthSum_viaJson σ as (by simpa [PlogExpr] using h) (by simpa [DefaultSigns] using hs)]
+  | .all as oid, h, hs => by
+      simp [Ast.viaJson, truth, length_viaJsonL, truthSum_viaJson σ as (by simpa [PlogExpr] using h) (by simpa [DefaultSigns] using hs)]
+  | .any as oid, h, hs => by
+      simp [Ast.viaJson, truth, truthSum_viaJson σ as (by simpa [PlogExpr] using h) (by simpa [DefaultSigns] using hs)]
+  | .xor as oid e, h, hs => by
+      simp [Ast.viaJson, truth, truthSum_viaJson σ as (by simpa [PlogExpr] using h) (by simpa [DefaultSigns] using hs)]
+  | .xnor as oid, h, hs => by
+      simp [Ast.viaJson, truth, truthSum_viaJson σ as (by simpa [PlogExpr] using h) (by simpa [DefaultSigns] using hs)]
+  | .imply c d oid, h, hs => by
+      have ⟨h1, h2⟩ : PlogExpr c ∧ PlogExpr d := by simpa [PlogExpr] using h
+      have ⟨s1, s2⟩ : DefaultSigns c ∧ DefaultSigns d := by simpa [DefaultSigns] using hs
+      simp [Ast.viaJson, truth, truth_viaJson σ c h1 s1, truth_viaJson σ d h2 s2]
+  | .not a, h, hs => by
+      simp [Ast.viaJson, truth, truth_viaJson σ a (by simpa [PlogExpr] using h) (by simpa [DefaultSigns] using hs)]
+  | .ccAny .., h, _ => by simp [PlogExpr] at h
+  | .ccXor .., h, _ => by simp [PlogExpr] at h
+  | .stingy .., h, _ => by simp [PlogExpr] at h
+theorem truthSum_viaJson (σ) : ∀ as : List Ast, PlogExprL as → DefaultSignsL as → truthSum σ (Ast.viaJsonL as) = truthSum σ as
+  | [], _, _ => by simp [Ast.viaJsonL, truthSum]
+  | a :: as, h, hs => by
+      have ⟨h1, h2⟩ : PlogExpr a ∧ PlogExprL as := by simpa [PlogExprL] using h
+      have ⟨s1, s2⟩ : DefaultSigns a ∧ DefaultSignsL as := by simpa [DefaultSignsL] using hs
+      simp [Ast.viaJsonL, truthSum, truth_viaJson σ a h1 s1, truthSum_viaJson σ as h2 s2]
+end
+
+/-- **via the JSON constructor**: the model that `plog.from_json` builds from the JSON of an expression evaluates to the
+    expression's truth function -/
+theorem json_truth (σ : String → Int) (a : Ast) (h : PlogExpr a) (hs : DefaultSigns a) (hok : Ok σ a.viaJson) :
+    ∃ a', PJ.toAst false a.userJson = some a' ∧ evalPt σ a'.build = truth σ a :=
+  ⟨a.viaJson, fromJson_userJson a h, by rw [build_truth σ _ hok, truth_viaJson σ a h hs]⟩
+
+/-! #### rule dictionaries -/
+
+/-- number of selected components -/
+def sel (σ : String → Int) (ids : List String) : Nat := (ids.filter (fun i => σ i = 1)).length
+
+theorem truthSum_comps (σ : String → Int) (hb : ∀ i, σ i = 0 ∨ σ i = 1) (m : Bool) :
+    ∀ ids : List String, truthSum σ (ids.map (Cic.comp m)) = sel σ ids
+  | [] => by simp [truthSum, sel]
+  | i :: r => by
+      have ih := truthSum_comps σ hb m r
+      have hc : truth σ (Cic.comp m i) = σ i := by cases m <;> simp [Cic.comp, truth]
+      simp only [List.map_cons, truthSum, hc, ih, sel, List.filter_cons]
+      rcases hb i with h | h <;> simp [h]
+      omega
+
+/-- the consequence of a rule, in words -/
+def consSem (σ : String → Int) (d : Cic) : Bool :=
+  match d.ruleType with
+  | .requiresAll => sel σ d.comps == d.comps.length          -- all of them
+  | .requiresAny => decide (sel σ d.comps ≥ 1)               -- at least one
+  | .oneOrNone => decide (sel σ d.comps ≤ 1)                 -- at most one
+  | .forbidsAll => sel σ d.comps == 0                        -- none
+  | .requiresExclusively => sel σ d.comps == 1               -- exactly one
+
+def subSem (σ : String → Int) (s : SubCond) : Bool :=
+  if s.all then sel σ s.comps == s.comps.length else decide (sel σ s.comps ≥ 1)
+
+/-- the condition of a rule: the sub-conditions combined by ALL / ANY (a single one stands for itself) -/
+def condSem (σ : String → Int) (d : Cic) : Bool :=
+  match d.subs with
+  | [s] => subSem σ s
+  | ss => if d.condAll then ss.all (subSem σ) else ss.any (subSem σ)
+
+/-- what a rule dictionary means: consequence alone, or condition → consequence -/
+def ruleSem (σ : String → Int) (d : Cic) : Bool :=
+  if !d.hasCond || d.subs.isEmpty then consSem σ d else (!condSem σ d || consSem σ d)
+
+theorem truth_consAst (σ) (hb : ∀ i, σ i = 0 ∨ σ i = 1) (m : Bool) (d : Cic) :
+    truth σ (Cic.consAst m d) = if consSem σ d then 1 else 0 := by
+  have hs := truthSum_comps σ hb m d.comps
+  unfold Cic.consAst consSem
+  cases d.ruleType <;> simp only [truth, hs, List.length_map] <;> simp <;> (try split) <;> (try split) <;> omega
+
+theorem truth_subAst (σ) (hb : ∀ i, σ i = 0 ∨ σ i = 1) (m : Bool) (s : SubCond) :
+    truth σ (Cic.subAst m s) = if subSem σ s then 1 else 0 := by
+  have hs := truthSum_comps σ hb m s.comps
+  cases hall : s.all
+  · simp only [Cic.subAst, subSem, hall, Bool.false_eq_true, if_false, truth, hs]
+    by_cases h : sel σ s.comps ≥ 1 <;> simp [h] <;> omega
+  · simp only [Cic.subAst, subSem, hall, if_true, truth, hs, List.length_map]
+    by_cases h : sel σ s.comps = s.comps.length <;> simp [h]
+    omega
+
+theorem truthSum_subs (σ) (hb : ∀ i, σ i = 0 ∨ σ i = 1) (m : Bool) : ∀ ss : List SubCond,
+    truthSum σ (ss.map (Cic.subAst m)) = ((ss.filter (subSem σ)).length : Int) ∧ (ss.filter (subSem σ)).length ≤ ss.length
+  | [] => by simp [truthSum]
+  | s :: r => by
+      have ⟨ih, il⟩ := truthSum_subs σ hb m r
+      simp only [List.map_cons, truthSum, truth_subAst σ hb m s, ih, List.filter_cons, List.length_cons]
+      cases hsub : subSem σ s <;> simp <;> omega
+
+theorem filter_length_eq_iff_all {α} (f : α → Bool) : ∀ l : List α, (l.filter f).length = l.length ↔ l.all f = true
+  | [] => by simp
+  | x :: r => by
+      have ih := filter_length_eq_iff_all f r
+      have hle := List.length_filter_le f r
+      cases hx : f x
+      · simp only [List.filter_cons, hx, Bool.false_eq_true, if_false, List.length_cons, List.all_cons, Bool.false_and]
+        constructor
+        · intro h; omega
+        · intro h; cases h
+      · simp only [List.filter_cons, hx, if_true, List.length_cons, List.all_cons, Bool.true_and]
+        constructor
+        · intro h; exact ih.1 (by omega)
+        · intro h; have := ih.2 h; omega
+
+theorem filter_length_pos_iff_any {α} (f : α → Bool) : ∀ l : List α, (l.filter f).length ≥ 1 ↔ l.any f = true
+  | [] => by simp
+  | x :: r => by
+      have ih := filter_length_pos_iff_any f r
+      cases hx : f x
+      · simp only [List.filter_cons, hx, Bool.false_eq_true, if_false, List.any_cons, Bool.false_or]
+        exact ih
+      · simp [hx]
+
+/-- a condition over several sub-conditions, implied consequence -/
+theorem truth_imply_many (σ) (hb : ∀ i, σ i = 0 ∨ σ i = 1) (m : Bool) (ss : List SubCond) (condAll : Bool)
+    (oid oid2 : Option String) (consA : Ast) (cb : Bool) (hc : truth σ consA = if cb then 1 else 0) :
+    truth σ (.imply (if condAll then .all (ss.map (Cic.subAst m)) oid2 else .any (ss.map (Cic.subAst m)) oid2) consA oid) =
+      if (!(if condAll then ss.all (subSem σ) else ss.any (subSem σ)) || cb) then 1 else 0 := by
+  have ⟨hsum, hlen⟩ := truthSum_subs σ hb m ss
+  have hall := filter_length_eq_iff_all (subSem σ) ss
+  have hany := filter_length_pos_iff_any (subSem σ) ss
+  cases condAll
+  · simp only [Bool.false_eq_true, if_false, truth, hc, hsum]
+    cases hA : ss.any (subSem σ)
+    · have : ¬ (ss.filter (subSem σ)).length ≥ 1 := fun h => by have := hany.1 h; simp [hA] at this
+      cases cb <;> simp <;> omega
+    · have := hany.2 hA
+      cases cb <;> simp <;> omega
+  · simp only [if_true, truth, hc, hsum, List.length_map]
+    cases hA : ss.all (subSem σ)
+    · have : ¬ (ss.filter (subSem σ)).length = ss.length := fun h => by have := hall.1 h; simp [hA] at this
+      cases cb <;> simp <;> omega
+    · have := hall.2 hA
+      cases cb <;> simp <;> omega
+
+/-- **via the rule-dictionary constructor**: the model `Imply.from_cicJE` builds (default component mapping or one that
+    returns the id strings) evaluates, on every 0/1 assignment, to what the rule says: REQUIRES_ALL / REQUIRES_ANY /
+    ONE_OR_NONE / FORBIDS_ALL / REQUIRES_EXCLUSIVELY of the consequence's components, implied by the ALL / ANY
+    combination of the sub-conditions when there is a condition -/
+theorem cic_semantics (σ : String → Int) (hb : ∀ i, σ i = 0 ∨ σ i = 1) (m : Bool) (d : Cic) (hok : Ok σ (d.toAst m)) :
+    evalPt σ (d.toAst m).build = if ruleSem σ d then 1 else 0 := by
+  rw [build_truth σ _ hok]
+  have hc := truth_consAst σ hb m d
+  unfold Cic.toAst ruleSem
+  cases hh : d.hasCond
+  · simp [hc]
+  · simp only [Bool.not_true, Bool.false_or, Bool.false_eq_true, if_false]
+    cases hss : d.subs with
+    | nil => simp [hc]
+    | cons s r =>
+        cases r with
+        | nil =>
+            simp only [truth, hc, truth_subAst σ hb m s, condSem, hss, List.isEmpty_cons, Bool.false_eq_true, if_false]
+            cases subSem σ s <;> cases consSem σ d <;> simp
+        | cons s2 r2 =>
+            simp only [List.isEmpty_cons, Bool.false_eq_true, if_false, condSem, hss]
+            exact truth_imply_many σ hb m (s :: s2 :: r2) d.condAll d.id d.condId _ _ hc
+
+/-- non-vacuity: a rule with two sub-conditions; the hypotheses hold and the rule is false at this point -/
+example :
+    let d : Cic := { id := some "R", ruleType := .oneOrNone, comps := ["x", "y"], consId := none, hasCond := true, condAll := true,
+                     subs := [⟨true, ["a", "b"], none⟩, ⟨false, ["c"], some "S"⟩], condId := none }
+    let σ : String → Int := fun i => if i = "z" then 0 else 1
+    ruleSem σ d = false ∧ (∀ i, σ i = 0 ∨ σ i = 1) := by
+  refine ⟨by decide, fun i => ?_⟩
+  simp only; split <;> simp
 
 end Puan.C04
